@@ -11,6 +11,7 @@ let split c s = if s = "" then [] else String.split_on_char c s
 
 let parse_handle h =
   if h = "l" then Latest else if h = "b" then Bogus
+  else if String.length h > 0 && h.[0] = 'z' then Bogus (* another spelling of an issued id names no message *)
   else Kth (nat_of_int (int_of_string (String.sub h 1 (String.length h - 1))))
 
 (* names: array of (index, coq string) *)
